@@ -264,6 +264,8 @@ def classify(ctx, rr, res, label, seen_reasons, known):
     """Violations / known findings of one validated round."""
     undecided = []
     for i, (l, d) in enumerate(zip(rr["lines"], res["diag"])):
+        if l.get("mutkind"):
+            continue                    # corrupted copies (binding demonstration) never count
         reasons = []
         for w in d["ebad"]:
             reasons.append(("runtime", w))
@@ -276,7 +278,7 @@ def classify(ctx, rr, res, label, seen_reasons, known):
                 best = min(d["accdev"], key=len)
                 for dev in best:
                     ctx.known_finding(dev)
-            elif d["n"] >= res["_bound"]:
+            elif max(d["n"], d.get("n1", 0)) >= res["_bound"]:
                 undecided.append(i)
             else:
                 reasons.append(("lin", describe(l, d)))
@@ -309,55 +311,65 @@ def decide(ctx, rr, label, known, seen_reasons, bound=20000):
 
 
 # ---------------------------------------------------------------------------- binding demonstration
-def binding(ctx, rr, res, known):
-    """Corrupt recorded fields of accepted histories; the trace spec must reject every one of them."""
-    if ctx.violations:
-        ctx.notes.append("binding demonstration skipped: the run found violations")
-        return
+def add_mutations(rr):
+    """Binding demonstration, part 1: corrupted copies of recorded histories are appended to the trace of
+    round 0 (marked mutkind / mutof) and validated in the same TLC run; they never count for the verdict."""
     muts = []
-    for l, d in zip(rr["lines"], res["diag"]):
-        if not (d["searched"] and d["acc"]) or d["fbad"] or d["fdev"] or l.get("scenario"):
+    for idx, l in enumerate(rr["lines"]):
+        if l.get("scenario") or l["cfg"]["mode"] != "distinct" or l["events"] or len(muts) >= 4:
             continue
-        if len(muts) >= 4:
-            break
-        kinds = {m["_mut"] for m in muts}
+        kinds = {m["mutkind"] for m in muts}
         c = json.loads(json.dumps(l))
+        c["mutof"] = idx
         if "status" not in kinds:
             o = next((o for o in c["ops"] if o["proc"] in ("MKDIR", "SYMLINK") and o["ok"]), None)
             if o:
-                o["ok"], o["st"], c["_mut"] = False, "EXIST", "status"      # a successful creation reported as a failure
+                o["ok"], o["st"], c["mutkind"] = False, "EXIST", "status"   # a successful creation reported as a failure
                 muts.append(c)
                 continue
         if "listing" not in kinds:
-            o = next((o for o in c["ops"] if o["proc"] in ("READDIR", "READDIRPLUS") and o["ok"] ), None)
+            o = next((o for o in c["ops"] if o["proc"] in ("READDIR", "READDIRPLUS") and o["ok"]), None)
             if o:
                 o["rnames"] = o["rnames"] + ["zz9"]                         # a listing with an entry that never existed
                 if "rtypes" in o:
                     o["rtypes"] = o["rtypes"] + ["REG"]
-                c["_mut"] = "listing"
+                c["mutkind"] = "listing"
                 muts.append(c)
                 continue
         if "final" not in kinds and len(c["final"]) > 2:
             c["final"] = c["final"][:-1]                                    # an object missing from the final tree
-            c["_mut"] = "final"
+            c["mutkind"] = "final"
             muts.append(c)
             continue
         if "handles" not in kinds and len(c["tab"]) >= 2:
             c["tab"].append({"i": 999, "p": c["tab"][-1]["p"]})            # two handle ids for one path
-            c["_mut"] = "handles"
+            c["mutkind"] = "handles"
             muts.append(c)
             continue
-    if len(muts) < 3:
-        raise vflib.Broken("binding demonstration: not enough accepted histories to corrupt (%d)" % len(muts))
-    kinds = [m.pop("_mut") for m in muts]
-    mp = os.path.join(ctx.scratch, "mutated.ndjson")
-    vflib.write_ndjson(mp, muts)
-    r2 = validate(ctx, mp, "mut", known)
-    for k, d in zip(kinds, r2["diag"]):
+    if muts:
+        rr["lines"].extend(muts)
+        vflib.write_ndjson(rr["trace"], rr["lines"])
+
+
+def binding(ctx, rr, res):
+    """Binding demonstration, part 2: every corrupted copy of a cleanly accepted history must be rejected."""
+    if ctx.violations:
+        ctx.notes.append("binding demonstration skipped: the run found violations")
+        return
+    n = 0
+    for l, d in zip(rr["lines"], res["diag"]):
+        if not l.get("mutkind"):
+            continue
+        od = res["diag"][l["mutof"]]
+        if not (od["searched"] and od["acc"]) or od["fbad"] or od["fdev"]:
+            continue                    # the original itself needed a deviation: not a clean basis
         rejected = d["fbad"] or (d["searched"] and not d["acc"] and not d["accdev"])
         if not rejected:
-            raise vflib.Broken("binding demonstration failed: a history with a corrupted %s was accepted" % k)
-        ctx.cov["binding_mutations_rejected"] += 1
+            raise vflib.Broken("binding demonstration failed: a history with a corrupted %s was accepted" % l["mutkind"])
+        n += 1
+    if n < 2:
+        raise vflib.Broken("binding demonstration: not enough cleanly accepted histories to corrupt (%d)" % n)
+    ctx.cov["binding_mutations_rejected"] += n
 
 
 # ---------------------------------------------------------------------------- replay
@@ -404,22 +416,26 @@ def run(ctx):
     pool.shutdown()
     first_res = None
     for rr in results:
+        if rr["rnd"] == 0 and not rr["events"]:
+            add_mutations(rr)
         res = decide(ctx, rr, "r%d" % rr["rnd"], known, seen)
         if first_res is None:
             first_res = (rr, res)
         s = rr["summ"]
-        ctx.cov["traces_validated_against_impl"] += len(rr["lines"])
+        ctx.cov["traces_validated_against_impl"] += len([l for l in rr["lines"] if not l.get("mutkind")])
         ctx.cov["evaluations"] += s.get("ops", 0)
         ctx.cov["distinct_nontrivial"] += s.get("nontrivial", 0)
         ctx.cov.setdefault("search_states", 0)
-        ctx.cov["search_states"] += sum(d["n"] for d in res["diag"])
+        ctx.cov["search_states"] += sum(d["n"] + d.get("n1", 0) for d in res["diag"])
         ctx.cov.setdefault("histories", collections.Counter())
         for l, d in zip(rr["lines"], res["diag"]):
+            if l.get("mutkind"):
+                continue
             ctx.cov["histories"]["%s/%s/%s" % (l["cfg"]["mode"], l["cfg"]["ttl"], "accepted" if d["acc"] else ("n/a" if not d["searched"] else "not accepted"))] += 1
         for smp in (s.get("samples") or [])[:1]:
             ctx.sample({"round": rr["rnd"], "history": smp})
     ctx.cov["histories"] = dict(ctx.cov.get("histories", {}))
-    binding(ctx, first_res[0], first_res[1], known)
+    binding(ctx, first_res[0], first_res[1])
     # a finding listed as known must have been reproduced by its directed schedule
     for dev in known:
         if dev not in ctx.known_seen and not ctx.violations:
@@ -428,13 +444,16 @@ def run(ctx):
                        "LOOKUP/GETATTR/READDIR/READDIRPLUS) through HandleCall over vfs under -race, seeded yields / spins / sleeps before and "
                        "after every backend operation, 8 cache configurations (TTL 1 ns / default, negative cache, directory cache); every 5th "
                        "history lets all clients work on the same names and handles (races, final-state clause only); every 10th is an attribute storm "
-                       "(clients GETATTR their own files of pairwise different sizes at the same moment, no injected delays; replies incl. size and "
+                       "(clients GETATTR and READ (whole file) their own files of pairwise different sizes and contents at the same moment, no injected delays; replies incl. size and "
                        "fileid are checked); every 20th consists of re-export rounds (Unexport, then all clients MNT + READDIRPLUS of 40 entries at "
                        "once, aligned by a barrier right before the handle allocations; the handle table is projected after every round); directed "
                        "schedules with blocking gates; nested schedules (a request on d/x or its handle - WRITE, SETATTR size/mode, CREATE, READ, "
                        "GETATTR, LOOKUP, READDIRPLUS - held at every one of its backend-operation boundaries while another client renames d/x "
                        "away or removes it, then the name is put back or not and both clients use the old handle and the directory again; "
-                       "completion within 10 s, races, final-state clause only); a history is non-trivial when requests of different clients overlap in real time and at least two "
+                       "completion within 10 s, races, final-state clause only); paired schedules (two requests of two clients - RENAME d1/a->d2/a2 and "
+                       "RENAME d2/b->d1/b2, in the thorough tier also RENAME|CREATE, WRITE|SETATTR, RENAME|READDIRPLUS, REMOVE|WRITE - stepped through "
+                       "their backend-operation boundaries by the harness: first to boundary i, second to boundary j, then alternately one boundary "
+                       "at a time, every (i, j); a request that does not return within 10 s is a deadlock event the spec rejects); a history is non-trivial when requests of different clients overlap in real time and at least two "
                        "requests changed the tree")
     ctx.cov["spec_actions_covered_by_impl"] = ["Step (all 13 procedures)", "Observe/Accepting", "FinalFails", "EventBad", "FidBad", DEV_RD, DEV_PUT, DEV_RDATTR, "Dev_SetattrTrustsStaleHandleMode", "nested schedules (completion)"]
     ctx.assumptions += [
